@@ -112,7 +112,7 @@ theorem callExt_eq_call (D : DateFns) (f : ExtFun) (vs : List Value) (hlen : vs.
     cases a <;> simp [kindsOK, checkKind] at hk
     rename_i t
     have := (hd t rfl).1 rfl
-    simp [callExt, ExtFun.name, Spec.call, this, goDates]
+    simp only [callExt, ExtFun.name, Spec.call, this, goDates, BEq.rfl, if_true]
   case toTime =>
     obtain ⟨a, rfl⟩ := len1 hlen
     cases a <;> simp [kindsOK, checkKind] at hk
